@@ -387,15 +387,18 @@ RULE = ("all lengths 0..40 x {4 operators x every Vector/Matrix operator form (o
         "[690, 709.78], in the underflow band [-745.2, -690], straddling +-709, lengths 1..300; map arguments at the "
         "overflow/underflow/tiny-argument thresholds of exp, exp2, exp_m1, ln_1p, sinh, cosh, ...; every special exponent of powf "
         "(+-1/2, +-1/3, +-1/4, +-1, +-2, +-3, +-0, +-1.5, +-1e-3, +-10, +-inf, NaN) and powi (0, +-1..+-4, i32::MIN, i32::MAX) on Vector "
-        "and Matrix; every map on a list of special arguments (0, +-1, +-1/2, powers of two, multiples of pi/4, pi/6); non-trivial = distinct (request kind, operator/function, operand kinds, "
+        "and Matrix; scalar sweeps of all 29 methods on random bit patterns / near +-1 / cubes (10x for cbrt, asinh, acosh, atanh, "
+        "which the model spells itself); every request is compared with the model (no tables); every map on a list of special arguments (0, +-1, +-1/2, powers of two, multiples of pi/4, pi/6); non-trivial = distinct (request kind, operator/function, operand kinds, "
         "ownership, length) class with a reply")
 EXHAUSTIVE = {"quick": False, "thorough": False}
 NOT_PROVED = [
     "T-B: floating-point rounding bounds |sum8 x - sum x| <= gamma_(n-1) sum|x_i| (and for dot, prod, norm, inf_norm, "
     "logsumexp) are not theorems; they are checked by the oracle against exact rational / 40-digit references on every run",
     "that the IEEE-754 operations + - * / and the libm functions of Lean's Float coincide with Rust's f64 methods is "
-    "measured by the bit-exact correspondence run (and for cbrt, asinh, acosh, atanh supplied as tables by the Rust "
-    "scalar method), not proved",
+    "measured by the bit-exact correspondence run, not proved; the same holds for the model's spelling of Rust std's own "
+    "formulas for asinh / acosh / atanh (Cv.asinhF, Cv.acoshF, Cv.atanhF over ln_1p, hypot, sqrt, ln) and for f64::cbrt "
+    "as the correctly rounded cube root (Cv.cbrtF, exact integer arithmetic): measured bit-identical on 1.2e6 (each "
+    "formula) and 1.0e7 (cbrt) random + special arguments, and re-measured on every run by the scalar sweep lines",
     "Matrix op Matrix with different (broadcast-compatible) shapes is property C12; here only equal shapes and "
     "non-broadcastable mismatches",
     "logsumexp / logmeanexp theorems assume non-empty input without NaN (over the reals); inputs containing +inf or only "
@@ -406,13 +409,21 @@ TRUSTED = [
     "matrix.rs, broadcast.rs (raises when a macro body no longer has the modelled shape)",
     "element operators and scalar methods are IEEE/libm operations on f64, one per position (compared bit for bit with the "
     "Rust scalar call on every generated position)",
+    "no request is implementation-only any more: asinh/acosh/atanh are tied through Rust std's formulas (std does not call "
+    "libm for them: asinh(x) = ln_1p(|x| + |x|/(hypot(1,1/|x|) + 1/|x|)).copysign(x), acosh(x) = NaN for x < 1 else "
+    "ln(x + sqrt(x-1)*sqrt(x+1)), atanh(x) = 0.5*ln_1p(2x/(1-x)); the libm asinh/acosh/atanh of Lean's Float differ from "
+    "Rust on 8.7-10.3 % of arguments), hypot through the C function both sides call; cbrt: Lean's Float.cbrt (glibc) "
+    "differs from Rust's f64::cbrt on 5269225 of 10000170 swept arguments (52.7 %), by at most 3 ulp - Rust's is the "
+    "correctly rounded cube root (core-math port; checked exactly on 3e5 arguments), which the model computes exactly "
+    "(0 differences on the same 10000170 arguments); sweeps: tools/cv/c04_sweep.py",
 ]
 ASSUMPTIONS = ["matrices are built through Matrix::new (data.len() == nrows*ncols); public fields are not corrupted by hand"]
 OPS = ["add", "sub", "mul", "div"]
 MAPS = ["ln", "ln_1p", "log10", "log2", "exp", "exp2", "exp_m1", "sin", "cos", "tan", "sinh", "cosh", "tanh", "asin",
         "acos", "atan", "asinh", "acosh", "atanh", "sqrt", "cbrt", "abs", "floor", "ceil", "to_radians", "to_degrees",
         "recip", "round", "signum"]
-TABLE_FNS = {"cbrt", "asinh", "acosh", "atanh"}      # Lean Float and Rust differ bit-wise: passed to the model as tables
+TABLE_FNS = set()      # maps whose scalar function the model cannot reproduce bit-wise would be passed as tables (op `mapt`): none left
+SWEEP_FNS = ["cbrt", "asinh", "acosh", "atanh"]   # model-side formulas / exact rounding rather than a shared libm call: swept harder
 POWI_EXPS = [0, 1, 2, 3, -1, -2, 5, 4, -3, 7, 10, -7, 31]
 REDS = ["sum", "prod", "norm", "max", "logsumexp", "logmeanexp"]
 INF = float("inf")
@@ -767,6 +778,33 @@ def infnorm_lines(rng, r, c, cover):
     return out
 
 
+def rand_bits_floats(rng, n):
+    """uniform over all 2^64 bit patterns: every exponent, subnormals, infinities, NaNs"""
+    import struct as _st
+    return [_st.unpack("<d", _st.pack("<Q", rng.u64()))[0] for _ in range(n)]
+
+
+def sweep_lines(rng, quick, cover):
+    """plain scalar loops (model: List.map of the Float spelling; implementation: the f64 method) on random bit patterns
+    and on arguments near the branch points, for every map; the four functions that the model does not take from the
+    shared libm get ten times as many arguments"""
+    out = []
+    base = 300 if quick else 4000
+    for fn in MAPS:
+        n = base * (10 if fn in SWEEP_FNS else 1)
+        xs = rand_bits_floats(rng, n // 2)
+        for _ in range(n // 4):
+            k = rng.randint(1, 60)
+            xs.append((1.0 + rng.choice([-1, 1]) * rng.random() * 2.0 ** -k) * rng.choice([1.0, -1.0]))
+        xs += [rng.normal() * 10.0 ** rng.randint(-300, 300) for _ in range(n // 8)]
+        xs += [float(rng.randint(-1000, 1000)) ** 3 for _ in range(n // 16)] + [rng.uniform(-1.0, 1.0) for _ in range(n // 16)]
+        xs += SPECIAL_ARGS
+        for i in range(0, len(xs), 5000):
+            out.append("scal %s %s" % (fn, V(xs[i:i + 5000])[2:]))
+        cover["scalar_sweep_args"] = cover.get("scalar_sweep_args", 0) + len(xs)
+    return out
+
+
 def add_tables(lines):
     """`map f <operand>` for the functions Lean cannot reproduce bit-wise -> `mapt f <operand> <table>`, where the
     table holds the scalar results f(x[i]) computed by the Rust scalar method (executor op `scal`)."""
@@ -834,6 +872,7 @@ def gen(rng, tier):
         lines += red_lines(rng, n, cover)
         if not quick:
             lines += red_lines(rng, n, cover)
+    lines += sweep_lines(rng, quick, cover)
     lines += special_pow_lines(rng, cover, 1 if quick else 4)
     lines += special_map_lines(rng, cover)
     # threshold bands of exp for the log-domain reductions: every length 1..40, then lengths up to 300
